@@ -2,6 +2,7 @@ package scsim
 
 import (
 	"bytes"
+	"fmt"
 	"math/big"
 	"sort"
 	"strings"
@@ -28,10 +29,10 @@ type spy struct {
 	frames []*frame
 	fn     string
 	// dead effects of the current transaction
-	deadWrites map[string][][]byte // addr|key -> values written only by failed calls
-	deadXfer   map[string]*big.Int // destination -> sum transferred only by failed calls
-	opaque     map[string]bool     // addresses whose balance also moves through channels the spy does not model as transfers
-	liveXfer   map[string]*big.Int // address -> net delta by transfers of calls that did not fail
+	deadWrites               map[string][][]byte // addr|key -> values written only by failed calls
+	deadXfer                 map[string]*big.Int // destination -> sum transferred only by failed calls
+	opaque                   map[string]bool     // addresses whose balance also moves through channels the spy does not model as transfers
+	liveXfer                 map[string]*big.Int // address -> net delta by transfers of calls that did not fail
 	failedNested, failedDeep int
 }
 
@@ -60,11 +61,30 @@ func newSpy(c *simkit.Ctx, real vm.ContextHandler, ch *chain) *spy {
 }
 
 // sid builds the map key of (address, storage key); the length prefix keeps it unambiguous.
-func sid(addr, key []byte) string { return string([]byte{byte(len(addr))}) + string(addr) + string(key) }
+func sid(addr, key []byte) string {
+	return string([]byte{byte(len(addr))}) + string(addr) + string(key)
+}
 
 func splitID(id string) (addr, key []byte) {
 	n := int(id[0])
 	return []byte(id[1 : 1+n]), []byte(id[1+n:])
+}
+
+// short prints a key or value: text if printable and short, else the first bytes in hex.
+func short(b []byte) string {
+	printable := len(b) <= 24
+	for _, ch := range b {
+		if ch < 0x20 || ch > 0x7e {
+			printable = false
+		}
+	}
+	if printable {
+		return fmt.Sprintf("%q", b)
+	}
+	if len(b) > 10 {
+		return fmt.Sprintf("%x..(%d bytes)", b[:10], len(b))
+	}
+	return fmt.Sprintf("%x", b)
 }
 
 func sameBytes(a, b []byte) bool { return (len(a) == 0 && len(b) == 0) || bytes.Equal(a, b) }
@@ -139,8 +159,8 @@ func (s *spy) endTx(out *vmcommon.VMOutput) {
 			for _, d := range dead {
 				if sameBytes(d, data) {
 					s.c.Violate("C40", "failed-write-in-vmoutput", s.fn,
-						"final VMOutput (return code Ok) of %s carries storage %x[%q]=%x which only a failed nested call wrote; value without that call: %x",
-						s.fn, a, k, data, want)
+						"final VMOutput (return code Ok) of %s carries storage %x[%s]=%s which only a failed nested call wrote; value without that call: %s",
+						s.fn, a, short([]byte(k)), short(data), short(want))
 					return
 				}
 			}
@@ -258,8 +278,8 @@ func (s *spy) ExecuteOnDestContext(destination []byte, sender []byte, value *big
 		cur := s.real.GetStorageFromAddress(a, k)
 		if !sameBytes(cur, child.touched[id]) {
 			s.c.Violate("C40", "storage-survives-failed-call", fn,
-				"after the failed nested call %q (depth %d) to %x, GetStorageFromAddress(%x, %q) = %x, before the call it was %x",
-				fn, child.depth, destination, a, k, cur, child.touched[id])
+				"after the failed nested call %q (depth %d) to %x, GetStorageFromAddress(%x, %s) = %s, before the call it was %s",
+				fn, child.depth, destination, a, short(k), short(cur), short(child.touched[id]))
 			break
 		}
 	}
@@ -297,22 +317,28 @@ func (s *spy) SendGlobalSettingToAll(sender []byte, input []byte) {
 
 // ------------------------------------------------------------------ plain forwarding
 
-func (s *spy) GetBalance(addr []byte) *big.Int                          { return s.real.GetBalance(addr) }
-func (s *spy) AddReturnMessage(msg string)                              { s.real.AddReturnMessage(msg) }
-func (s *spy) GetStorage(key []byte) []byte                             { return s.real.GetStorage(key) }
-func (s *spy) GetStorageFromAddress(address []byte, key []byte) []byte  { return s.real.GetStorageFromAddress(address, key) }
-func (s *spy) Finish(value []byte)                                      { s.real.Finish(value) }
-func (s *spy) UseGas(gasToConsume uint64) error                         { return s.real.UseGas(gasToConsume) }
-func (s *spy) GasLeft() uint64                                          { return s.real.GasLeft() }
-func (s *spy) BlockChainHook() vm.BlockchainHook                        { return s.real.BlockChainHook() }
-func (s *spy) CryptoHook() vmcommon.CryptoHook                          { return s.real.CryptoHook() }
-func (s *spy) IsValidator(blsKey []byte) bool                           { return s.real.IsValidator(blsKey) }
-func (s *spy) StatusFromValidatorStatistics(blsKey []byte) string       { return s.real.StatusFromValidatorStatistics(blsKey) }
-func (s *spy) CanUnJail(blsKey []byte) bool                             { return s.real.CanUnJail(blsKey) }
-func (s *spy) IsBadRating(blsKey []byte) bool                           { return s.real.IsBadRating(blsKey) }
-func (s *spy) CleanStorageUpdates()                                     { s.real.CleanStorageUpdates() }
-func (s *spy) IsInterfaceNil() bool                                     { return s == nil }
-func (s *spy) GetContract(address []byte) (vm.SystemSmartContract, error) { return s.real.GetContract(address) }
+func (s *spy) GetBalance(addr []byte) *big.Int { return s.real.GetBalance(addr) }
+func (s *spy) AddReturnMessage(msg string)     { s.real.AddReturnMessage(msg) }
+func (s *spy) GetStorage(key []byte) []byte    { return s.real.GetStorage(key) }
+func (s *spy) GetStorageFromAddress(address []byte, key []byte) []byte {
+	return s.real.GetStorageFromAddress(address, key)
+}
+func (s *spy) Finish(value []byte)               { s.real.Finish(value) }
+func (s *spy) UseGas(gasToConsume uint64) error  { return s.real.UseGas(gasToConsume) }
+func (s *spy) GasLeft() uint64                   { return s.real.GasLeft() }
+func (s *spy) BlockChainHook() vm.BlockchainHook { return s.real.BlockChainHook() }
+func (s *spy) CryptoHook() vmcommon.CryptoHook   { return s.real.CryptoHook() }
+func (s *spy) IsValidator(blsKey []byte) bool    { return s.real.IsValidator(blsKey) }
+func (s *spy) StatusFromValidatorStatistics(blsKey []byte) string {
+	return s.real.StatusFromValidatorStatistics(blsKey)
+}
+func (s *spy) CanUnJail(blsKey []byte) bool   { return s.real.CanUnJail(blsKey) }
+func (s *spy) IsBadRating(blsKey []byte) bool { return s.real.IsBadRating(blsKey) }
+func (s *spy) CleanStorageUpdates()           { s.real.CleanStorageUpdates() }
+func (s *spy) IsInterfaceNil() bool           { return s == nil }
+func (s *spy) GetContract(address []byte) (vm.SystemSmartContract, error) {
+	return s.real.GetContract(address)
+}
 func (s *spy) SetSystemSCContainer(scContainer vm.SystemSCContainer) error {
 	return s.real.SetSystemSCContainer(scContainer)
 }
